@@ -724,3 +724,136 @@ func C11_Expand() {
 	}
 	nd.Assert(storeAgrees(env, m), "variables after $(( )) differ from C")
 }
+
+// C11_Const: numerals with symbolic digits. The text is an optional base
+// prefix followed by two symbolic bytes; the reference is C's numeral grammar
+// (decimal [1-9][0-9]*, octal 0[0-7]*, hexadecimal 0[xX][0-9a-fA-F]+, blanks
+// around it), everything else must be an ArithExprError.
+func C11_Const() {
+	prefix := []string{"", "0", "0x", "0X", "1", "7"}[nd.Choice(6)]
+	text := prefix + nd.StrIn(2, "0189afgxz_ ")
+	env := interp.NewExecEnv("sh")
+	got, err := env.Eval(text)
+	nd.Observe(text)
+	val, ok := refNumeral(text)
+	if !ok && isIdentText(text) {
+		nd.Cover("identifier")
+		nd.Assert(err == nil && got == 0, "an unset variable reads as 0")
+		return
+	}
+	if !ok {
+		nd.Cover("malformed")
+		_, isArith := err.(interp.ArithExprError)
+		nd.Assert(isArith, "a malformed constant (or anything that is not an expression) is an ArithExprError")
+		return
+	}
+	nd.Cover("numeral")
+	nd.Assert(err == nil && got == val, "a decimal, octal or hexadecimal constant has its C value")
+}
+
+// isIdentText: blanks, one identifier, blanks.
+func isIdentText(s string) bool {
+	i, j := 0, len(s)
+	for i < j && s[i] == ' ' {
+		i++
+	}
+	for j > i && s[j-1] == ' ' {
+		j--
+	}
+	if i == j {
+		return false
+	}
+	for k := i; k < j; k++ {
+		c := s[k]
+		letter := c == '_' || (c >= 'a' && c <= 'z') || (c >= 'A' && c <= 'Z')
+		if !(letter || (k > i && c >= '0' && c <= '9')) {
+			return false
+		}
+	}
+	return true
+}
+
+// refNumeral parses s as blanks, one C integer constant, blanks.
+func refNumeral(s string) (int, bool) {
+	i, j := 0, len(s)
+	for i < j && s[i] == ' ' {
+		i++
+	}
+	for j > i && s[j-1] == ' ' {
+		j--
+	}
+	t := s[i:j]
+	if t == "" {
+		return 0, false
+	}
+	digit := func(c byte, base int) (int, bool) {
+		var d int
+		switch {
+		case c >= '0' && c <= '9':
+			d = int(c - '0')
+		case c >= 'a' && c <= 'f':
+			d = int(c-'a') + 10
+		case c >= 'A' && c <= 'F':
+			d = int(c-'A') + 10
+		default:
+			return 0, false
+		}
+		return d, d < base
+	}
+	base := 10
+	k := 0
+	if t[0] == '0' {
+		base = 8
+		k = 1
+		if len(t) > 1 && (t[1] == 'x' || t[1] == 'X') {
+			base = 16
+			k = 2
+			if len(t) == 2 {
+				return 0, false
+			}
+		}
+	}
+	n := 0
+	for ; k < len(t); k++ {
+		d, ok := digit(t[k], base)
+		if !ok {
+			return 0, false
+		}
+		n = n*base + d
+	}
+	return n, true
+}
+
+// C11_D3: three nested operators (arithmetic, comparison and bitwise binary
+// operators and the unary ones), every position of the inner expressions,
+// with and without redundant parentheses around the innermost one.
+func C11_D3() {
+	ops := []string{"*", "/", "+", "-", "<<", "<", "==", "&", "|"}
+	un := func() *xnode {
+		return &xnode{k: xUnary, op: unaryOps[nd.Choice(len(unaryOps))], l: &xnode{k: xVar, name: "a"}}
+	}
+	bin := func(l, r *xnode) *xnode {
+		return &xnode{k: xBinary, op: ops[nd.Choice(len(ops))], l: l, r: r}
+	}
+	va, vb, l3 := &xnode{k: xVar, name: "a"}, &xnode{k: xVar, name: "b"}, &xnode{k: xLit, lit: "3"}
+	var inner *xnode
+	if nd.Choice(4) == 0 {
+		inner = un()
+	} else {
+		inner = bin(va, vb)
+	}
+	inner.paren = nd.Choice(2) == 1
+	var mid *xnode
+	if nd.Choice(2) == 0 {
+		mid = bin(inner, l3)
+	} else {
+		mid = bin(l3, inner)
+	}
+	var e *xnode
+	if nd.Choice(2) == 0 {
+		e = bin(mid, &xnode{k: xLit, lit: "5"})
+	} else {
+		e = bin(&xnode{k: xLit, lit: "5"}, mid)
+	}
+	c11Run(e)
+}
